@@ -120,3 +120,27 @@ Proof.
   intros Mx Hwf Hne Hy Hr Hb NE.
   apply (plain_least_squares_minimise n Mx vy false [] raw beta Hwf Hne Hy Hr Hb); [discriminate | exact NE].
 Qed.
+
+(* ------------------------------------------------------------------ option 1 (Garcke): the assembled system *)
+(* the right-hand side is the diagonal of the matrix by construction: garcke_vector M = diag_of M 0 (vector[i] = matrix[i][i]) *)
+Theorem garcke_matrix_symmetric grids vdata lam : symmetricM (length grids) (garcke_matrix grids vdata lam).
+Proof. unfold garcke_matrix. apply sym_matrix_symmetric. Qed.
+
+(* a certified raw vector satisfies the normal equations of lstsq(matrix, vector) up to the checker's bound; exact solutions of
+   these normal equations minimise |matrix c - vector|^2; and whatever lstsq returns, the coefficients written back sum to one *)
+Theorem opticom1_certified_sound M raw tol : opticom1_certified M raw tol = true ->
+  let v := garcke_vector M in
+  Forall2 (fun row ri => Qc_abs (dotQ row raw - ri)
+                         <= tol * Qc_max (residual_scale (left_matrix M 0 false []) (right_vector M v) raw) (residual_floor M v))
+          (left_matrix M 0 false []) (right_vector M v).
+Proof. intro H. apply residual_ok_floor_sound. exact H. Qed.
+
+Theorem opticom1_exact_minimiser n M raw beta :
+  let v := garcke_vector M in
+  wf_matrix n M -> M <> [] -> length v = length M -> length raw = n -> length beta = n ->
+  matvec (left_matrix M 0 false []) raw = right_vector M v ->
+  sqnorm (vsub (matvec M raw) v) <= sqnorm (vsub (matvec M beta) v).
+Proof.
+  intros v Hwf Hne Hy Hr Hb NE.
+  apply (plain_least_squares_minimise n M v false [] raw beta Hwf Hne Hy Hr Hb); [discriminate | exact NE].
+Qed.
